@@ -2,7 +2,7 @@
 import common
 import gfi_run
 
-RULE = "random programs as C01; per program generate with all / none / three random partial subsets of the structural address set (partial inside Vmap/Scan/Cond sub-calls, whole sub-calls missing) and with None; monitors: constrained values kept, weight = sum of constrained site log densities, unconstrained sites = probe draw from conditional prior, coherence"
+RULE = "structural corpus first (gfi_corpus.py: 9 hand-built nestings - Cond over nested @gen at shared / disjoint addresses, Cond of Cond, Scan fed by an upstream choice, Cond in a Scan step, Vmap of nested fn, Vmap of Vmap, Scan of repeat, Cond of Scan, Vmap lanes with a Cond - each with a fixed op script incl. argument changes that flip the check); then random programs as C01; per program generate with all / none / three random partial subsets of the structural address set (partial inside Vmap/Scan/Cond sub-calls, whole sub-calls missing) and with None; monitors: constrained values kept, weight = sum of constrained site log densities, unconstrained sites = probe draw from conditional prior, coherence"
 
 SHARDS_QUICK, PER_SHARD_QUICK = 13, 5
 SHARDS_THOROUGH, PER_SHARD_THOROUGH = 14, 18
@@ -10,7 +10,7 @@ SHARDS_THOROUGH, PER_SHARD_THOROUGH = 14, 18
 
 def run(ctx, audit):
     ns, per = (SHARDS_THOROUGH, PER_SHARD_THOROUGH) if ctx.thorough else (SHARDS_QUICK, PER_SHARD_QUICK)
-    common.run_sharded(ctx, "gfi_props", "shard_c02", [(i, per) for i in range(ns)])
+    common.run_sharded(ctx, "gfi_props", "shard_c02", [(i, per, ns) for i in range(ns)])
     extra(ctx)
     return {"rule": RULE}
 
